@@ -1061,7 +1061,9 @@ func (e *Enc) encodeConvert(x *ssa.Convert) {
 		}
 		c := e.bind(x, SliceMk(r, IntLit(0), ln, ln))
 		_ = c
-		e.convSrc(x, v)
+		// ghost link from the new backing array to the string it was made from
+		e.declareFun("str_of_arr", []Sort{SInt}, SStr)
+		e.assert(Eq(App(SStr, "str_of_arr", r), v))
 	case tok && tb.Info()&types.IsString != 0:
 		// []byte / []rune -> string
 		c := e.havocVal(x)
@@ -1147,6 +1149,13 @@ func (e *Enc) boxValue(v Term, t types.Type) Term {
 func (e *Enc) encodeTypeAssert(x *ssa.TypeAssert) {
 	v := e.termOf(x.X)
 	at := x.AssertedType
+	// execution code must not inspect the dynamic type of the writer it is given (C14: the sequence of writes
+	// is a function of template and context only)
+	if e.frameOn() {
+		if n, ok := x.X.Type().(*types.Named); ok && (n.Obj().Name() == "TemplateWriter" || (n.Obj().Pkg() != nil && n.Obj().Pkg().Path() == "io" && n.Obj().Name() == "Writer")) {
+			e.oblige("opaque", "writer-type-inspected", x.Pos(), False, []string{"C14"}, "execution must not branch on the dynamic type of its writer")
+		}
+	}
 	var okT, val Term
 	if types.IsInterface(at) {
 		okT = And(Ne(v, IntLit(0)), e.implements(DynType(v), at))
